@@ -574,8 +574,17 @@ static sb_error_t sb_i_poly_solve_3d(const sb_poly_t* poly, float rhs, float* ro
     } else if (d > 0) {
         *num_roots = 2;
         d = sqrtf(d);
-        roots[0] = (-b - d) / (2 * a);
-        roots[1] = (-b + d) / (2 * a);
+        /* Evaluate the root whose numerator adds two terms of the same sign
+         * directly and derive the other one from the product of the roots
+         * (c / a); subtracting two nearly equal terms would lose the small
+         * root when the leading coefficient is tiny */
+        if (b >= 0) {
+            roots[0] = (-b - d) / (2 * a);
+            roots[1] = (2 * c) / (-b - d);
+        } else {
+            roots[0] = (2 * c) / (-b + d);
+            roots[1] = (-b + d) / (2 * a);
+        }
     } else {
         *num_roots = 0;
     }
